@@ -5,5 +5,5 @@ cd "$(dirname "$0")"
 export CARGO_NET_OFFLINE=true
 (cd lean && lake build VarproModel driver)
 cp /repo/Cargo.lock harness/Cargo.lock
-(cd harness && cargo build --offline --profile release --features parallel)
+(cd harness && cargo build --offline --profile release --features parallel && cargo build --offline --profile checked --features parallel)
 echo setup-ok
